@@ -140,6 +140,9 @@ func (e *Enc) prelude() string {
 	for _, a := range e.axioms {
 		fmt.Fprintf(&sb, "(assert %s)\n", a)
 	}
+	for _, a := range e.implFacts() {
+		fmt.Fprintf(&sb, "(assert %s)\n", a)
+	}
 	return sb.String()
 }
 
@@ -352,6 +355,7 @@ type SolveOpts struct {
 	NoLead   bool
 	NoGround bool
 	Kinds    map[string]bool // nil = all obligation kinds
+	Props    map[string]bool // the properties being checked (clause-level tags)
 	// CrossCheck (thorough tier): every discharged obligation is put to a second, different
 	// solver; its verdict is recorded (Confirm) and a contradiction (sat against unsat) is a failure.
 	CrossCheck bool
@@ -385,7 +389,21 @@ func discharge(results []*FuncResult, opts SolveOpts) {
 			prelude = fr.Enc.prelude()
 		}()
 		for _, ob := range fr.Obs {
-			if opts.Kinds != nil && !ob.Cover && !opts.Kinds[ob.Kind] {
+			if len(ob.ClauseProps) > 0 && len(opts.Props) > 0 {
+				// a clause tagged "[Cxx]" is checked under those properties only - and under them
+				// whatever the kind filter says
+				mine := false
+				for _, cp := range ob.ClauseProps {
+					if opts.Props[cp] {
+						mine = true
+					}
+				}
+				if !mine {
+					ob.Skipped = true
+					ob.Result = &SolveResult{Status: "skipped", Solver: "skipped"}
+					continue
+				}
+			} else if opts.Kinds != nil && !ob.Cover && !opts.Kinds[ob.Kind] {
 				// this obligation belongs to another property's check
 				ob.Skipped = true
 				ob.Result = &SolveResult{Status: "skipped", Solver: "skipped"}
